@@ -185,7 +185,7 @@ func runC20Restored(c UCase) (Case, bool) {
 		}
 		return cList(cs)
 	}
-	all, all2 := iter(), iter()
+	all := iter()
 	getSame := true
 	for k, v := range fs.All() {
 		got, ok := fs.Get(k)
@@ -215,6 +215,18 @@ func runC20Restored(c UCase) (Case, bool) {
 			}
 		}
 	}
+	// typed lookups through every pool key whose name occurs (declared or not): a lookup is an
+	// inspection and must leave the collection as it was - the second iteration and Len come after
+	for _, ke := range keyPool {
+		if _, occurs := c.Doc.Fields[ke.Name]; occurs {
+			func() {
+				defer func() { _ = recover() }()
+				_, _ = fs.Get(ke.Key)
+				_, _ = ke.Ext(res)
+			}()
+		}
+	}
+	all2 := iter()
 	var un, dn []string
 	for _, n := range unkNames {
 		un = append(un, cStr(n))
